@@ -1,6 +1,6 @@
 """C11 — Packets are parsed independently; generators and definitions do not interfere.
 
-Kernel E-hist + interleavings.  (i) every stream of <= 4 packets over a 7-packet palette (two
+Kernel E-hist + interleavings.  (i) every stream of <= 4 packets over a 9-packet palette (two
 recognised APIDs with different layouts, an unrecognised APID, a too-long and a too-short packet)
 under all 8 option combinations equals the concatenation of the per-packet solo results; (ii) every
 lattice-path interleaving of next() calls over 2 (and 3) generators sharing one definition gives
@@ -65,7 +65,10 @@ def palette_packets():
     # decoding raises inside the container walk (binary field runs off the end of the packet): ends its own generator,
     # must not affect anything else that uses the definition afterwards
     a_raising = framing.mk_packet(bytes([0xE0 | 0x03, 0x77]), apid=1, seqcount=14)  # LEN=7, only one byte follows
-    return [a_clean, b_clean, unrec, a_long, a_short, unrec_same_apid, a_raising]
+    # segments of a group (APID 4, the one-byte S layout): ordinary packets unless combine_segmented_packets is set
+    seg_first = framing.mk_packet(b"\x71", apid=4, seqflags=1, seqcount=40)
+    seg_last = framing.mk_packet(b"\x72", apid=4, seqflags=2, seqcount=41)
+    return [a_clean, b_clean, unrec, a_long, a_short, unrec_same_apid, a_raising, seg_first, seg_last]
 
 
 def obs_item(p):
@@ -105,6 +108,9 @@ OPTS = [{"parse_bad_pkts": a, "yield_unrecognized_packet_errors": b, "ccsds_head
 # a root container named for one call only: the choice belongs to that call, not to the definition
 OPTS[3:3] = [{"parse_bad_pkts": True, "yield_unrecognized_packet_errors": True, "ccsds_headers_only": False, "root_container_name": "RAWDUMP"}]
 OPTS.append({"parse_bad_pkts": False, "yield_unrecognized_packet_errors": False, "ccsds_headers_only": False, "root_container_name": "RAWDUMP"})
+# headers only: one raw packet per packet of the stream, whatever else is asked for (segment reassembly, a raw-record prefix of 0 bytes)
+OPTS.append({"parse_bad_pkts": True, "yield_unrecognized_packet_errors": False, "ccsds_headers_only": True, "combine_segmented_packets": True})
+OPTS.append({"parse_bad_pkts": False, "yield_unrecognized_packet_errors": True, "ccsds_headers_only": True, "combine_segmented_packets": True, "secondary_header_bytes": 1})
 
 
 def _task_streams(task):
@@ -176,7 +182,7 @@ def _task_streams(task):
         if ch:
             t.notes.append("package-level state changed while the check ran (not a violation by itself): " + ", ".join(ch[:6]))
     if task["seqs"]:
-        t.sample({"stream": list(task["seqs"][-1]), "palette": ["A-clean", "B-clean", "unrecognised", "A-too-long", "A-too-short", "unrecognised-with-a-recognised-APID", "raising (binary field beyond the end)"], "options": "all 8 combinations + 2 with a per-call root container"})
+        t.sample({"stream": list(task["seqs"][-1]), "palette": ["A-clean", "B-clean", "unrecognised", "A-too-long", "A-too-short", "unrecognised-with-a-recognised-APID", "raising (binary field beyond the end)", "FIRST segment", "LAST segment"], "options": "all 8 combinations + 2 with a per-call root container"})
     return t
 
 
@@ -285,6 +291,29 @@ def _task_interleave(task):
                                     {"combo": list(combo), "streams": [s[0] for s in chosen], "path": list(path), "max_items": task["max_items"]},
                                     expected=[x[0] for x in seqs[chosen[i][0]][:counts[i]]], observed=[x[0] for x in outs[i]],
                                     note=f"generator #{i} ({chosen[i][0]}) yields differently under this interleaving than sequentially")
+                # a generator that is abandoned part-way (closed explicitly, or dropped and garbage collected) leaves the others alone
+                if len(chosen) == 2:
+                    import gc
+                    for ka in range(counts[0] + 1):
+                        for how in ("close", "drop"):
+                            with observed_warnings():
+                                ga, gb = make_gen(defn, chosen[0]), make_gen(defn, chosen[1])
+                                first_b = [step(gb)] if counts[1] else []
+                                for _ in range(ka):
+                                    step(ga)
+                                if how == "close":
+                                    ga.close()
+                                else:
+                                    del ga
+                                    gc.collect()
+                                outb = first_b + [step(gb) for _ in range(max(0, counts[1] - 1))]
+                            t.evals += 1
+                            t.traces += 1
+                            if outb != seqs[chosen[1][0]][:counts[1]]:
+                                t.violation({"kind": "interleaving-interference", "k": 2, "abandoned": how},
+                                            {"combo": list(combo), "streams": [s[0] for s in chosen], "abandon_after": ka, "how": how, "max_items": task["max_items"]},
+                                            expected=[x[0] for x in seqs[chosen[1][0]][:counts[1]]], observed=[x[0] for x in outb],
+                                            note=f"generator {chosen[1][0]} yields differently after generator {chosen[0][0]} was abandoned ({how}) after {ka} items")
                 t.nontrivial += 1
         t.states = len(states)
         if canon_definition(defn) != before:
@@ -314,10 +343,10 @@ def run(ctx):
         "transitions": tally.transitions,
         "traces_validated_against_impl": tally.traces,
         "exhaustive": True,
-        "bound": (f"(i) every stream of <= 4 packets over a 7-packet palette ({len(seqs)} streams) x all 8 combinations of parse_bad_pkts / "
-                  "yield_unrecognized_packet_errors / ccsds_headers_only (+ 2 with root_container_name naming a stand-alone container for that call) "
+        "bound": (f"(i) every stream of <= 4 packets over a 9-packet palette ({len(seqs)} streams) x all 8 combinations of parse_bad_pkts / "
+                  "yield_unrecognized_packet_errors / ccsds_headers_only (+ 2 with root_container_name naming a stand-alone container for that call, + 2 headers-only runs with combine_segmented_packets) "
                   "vs. per-packet solo results on fresh definitions; (ii) k=2: every ordered pair of 7 generators "
-                  "(two with combine_segmented_packets, one over a scripted socket, one with a per-call root container) x ALL lattice-path interleavings of their next() calls up to exhaustion; "
+                  "(two with combine_segmented_packets, one over a scripted socket, one with a per-call root container) x ALL lattice-path interleavings of their next() calls up to exhaustion, and one generator abandoned (closed, or dropped and collected) after every number of items while the other runs on; "
                   f"k=3: {len(triples)} triples with <= {2 if ctx.quick else 3} steps each, all interleavings; (iii) definition canon + written XML unchanged; "
                   "(iv) package footprint unchanged"),
         "rule": ("one evaluation = one stream run or one complete interleaving; states = distinct (generator combination, position vector) pairs; "
